@@ -83,6 +83,14 @@ def hostile_paths(rng, paths):
         out.add("/\\evil.com" + p)
         out.add("/" + p)
         out.add("//evil.com/%2f.." + p)
+        # a first segment that looks like a URL scheme / authority must stay a path segment
+        out.add("/http://evil.com" + p)
+        out.add("/https:/evil.com" + p)
+        out.add("/http:" + p)
+        segs = p.split("/")
+        if len(segs) > 1:
+            out.add("/" + "/".join(["javascript:alert(1)"] + segs[2:]))
+            out.add("/" + "/".join(["evil.com:80"] + segs[2:]))
         out.add(p.replace("/", "//"))
         out.add(p.replace("/", "///", 1))
         out.add(p + "é")
@@ -233,10 +241,16 @@ def gen_rules(rng):
             dv = 1 if last[2][0] == "int" else "zz"
             base = dict(r, segs=list(r["segs"][:-1]), defaults={last[4]: dv}, branch=True if not r["segs"][:-1] else r["branch"])
             extra.append(base)
+            if rng.random() < 0.5:
+                # an alias whose *defaults* select the canonical URL: /old<k>.html -> build(endpoint, var=value)
+                dv2 = 7 if last[2][0] == "int" else "ab"
+                extra.append(dict(r, segs=[("lit", f"old{len(extra)}.html")], tail=None, branch=False, defaults={last[4]: dv2}, alias=True,
+                                  only_if_single_var=sum(1 for s_ in r["segs"] if s_[0] == "var") == 1))
         elif rng.random() < 0.25 and not any(s[0] == "var" for s in r["segs"]) and not r["tail"]:
             # alias: another literal path for the same endpoint
             al = dict(r, segs=[("lit", "old")] + list(r["segs"]), alias=True)
             extra.append(al)
+    extra = [e for e in extra if e.get("only_if_single_var", True)]
     return rules + extra
 
 
